@@ -3,7 +3,7 @@ import logging
 from collections import OrderedDict
 from typing import Union
 
-from typedpy.commons import Constant, default_factories, first_in, wrap_val
+from typedpy.commons import Constant, default_factories, first_in
 from typedpy.fields import (
     FunctionCall,
     Map,
@@ -283,13 +283,18 @@ def _convert_field_to_schema_code_internal(additional_fields, definitions, schem
     return f"{cls.__name__}({params_as_string})"
 
 
+def _str_literal(val):
+    """source text of a Python literal for a schema string (escapes quotes, backslashes, newlines)"""
+    return repr(val) if isinstance(val, str) else val
+
+
 def _handle_schema_default_to_code(params_list, schema):
     if "default" in schema:
         default_val = schema["default"]
         if isinstance(default_val, (list, dict)):
             default_val = f"lambda: {default_val}"
         else:
-            default_val = wrap_val(default_val)
+            default_val = _str_literal(default_val)
         params_list.append(("default", default_val))
 
 
@@ -521,7 +526,7 @@ class MapMapper(Mapper):
             else "String()"
         )
         adjusted_key_type = (
-            f"String(pattern='{list(pattern_properties.keys())[0]}')"
+            f"String(pattern={list(pattern_properties.keys())[0]!r})"
             if pattern_properties
             else key_type
         )
@@ -594,7 +599,7 @@ class StringMapper(Mapper):
         params = {
             "minLength": schema.get("minLength", None),
             "maxLength": schema.get("maxLength", None),
-            "pattern": wrap_val(schema.get("pattern", None)),
+            "pattern": _str_literal(schema.get("pattern", None)),
         }
         return list((k, v) for k, v in params.items() if v is not None)
 
